@@ -351,3 +351,31 @@ def run(ctx):
             else:
                 okid = okid or (term.k == "field" and term.a[1] == "id" and any(x.k == "call" and x.a[0].endswith("HashMap::<K, V, S, A>::get") for x in A.walk(term)))
         ctx.ob("R-C12.6", fn, "name-row-key-is-n-plus-be-id", has_n and okid, "'n' + id.to_be_bytes() built from %s" % ("the id parameter" if idsrc == "P2" else "the id of the keyspace found under `name`") if has_n and okid else "meta name-row key is not 'n' + big-endian id of the right keyspace (has 'n'=%s, id source ok=%s)" % (has_n, okid))
+
+    # ---- R-C12.7 look-up and creation of a name are one critical section: Database::keyspace decides "does not exist yet" and
+    # creates the keyspace (id, folder, meta rows, map entry) under ONE keyspaces.write() guard. With the look-up under a
+    # shared lock (or the guard taken only for the last step) two threads opening the same new name both create a
+    # keyspace: two ids, two folders, two `n<id> -> name` rows; handles that do not see each other's writes.
+    kf = ctx.fn("db::Database::keyspace", "R-C12.7")
+    if kf:
+        og = ctx.og(kf)
+        wr = [b for b, t in kf.calls() if A.cname(t).endswith("RwLock::<T>::write") and any(x.k == "field" and x.a[1] == "keyspaces" for x in A.walk(og.of_operand(t["args"][0])))]
+        gets = [b for b, t in kf.calls() if A.cname(t).endswith("::get") and "HashMap" in A.cname(t)]
+        ck = R.call_blocks(kf, ("meta_keyspace::MetaKeyspace::create_keyspace",))
+        cn = R.call_blocks(kf, ("keyspace::Keyspace::create_new",))
+        idd = [b for b, t in kf.calls() if A.cname(t) == R.SEQNO_NEXT and any(x.k == "field" and x.a[1] == "keyspace_id_counter" for x in A.walk(og.of_operand(t["args"][0])))]
+        ok = False
+        detail = "Database::keyspace does not look up / create under keyspaces.write()"
+        if len(wr) == 1 and gets and ck:
+            g = A.Guard("keyspaces", kf, wr[0], A.guard_aliases(kf, kf.term(wr[0])["dest"]["l"]), "write")
+            # the look-up reads the map THROUGH that guard
+            look = all(any(x.k == "call" and x.site == (kf.id, wr[0]) for x in A.walk(og.of_operand(kf.term(b)["args"][0]))) for b in gets)
+            # the guard is still held at id draw / folder creation, and it is the one handed to create_keyspace
+            held = all(A.must_held_at(kf, g, b)[0] for b in idd + cn)
+            handed = any(any(x.k == "call" and x.site == (kf.id, wr[0]) for x in A.walk(og.of_operand(a))) for a in kf.term(ck[0])["args"])
+            ok = look and held and handed and bool(idd) and bool(cn)
+            detail = "the name is looked up, the id drawn, the folder created and the meta rows written under one keyspaces.write() guard" if ok else \
+                "look-up and creation are not one critical section (look-up through the write guard=%s, guard held at id draw/folder creation=%s, same guard handed to create_keyspace=%s): two threads opening the same new name both create it" % (look, held, handed)
+        elif len(wr) != 1:
+            detail = "Database::keyspace takes keyspaces.write() %d times (expected once, before the look-up)" % len(wr)
+        ctx.ob("R-C12.7", kf, "lookup-and-create-are-one-critical-section", ok, detail)
